@@ -62,6 +62,8 @@ type Exec struct {
 	captured          []localCell // cells of captured variables (free variables, heap-allocated named locals)
 	calleeSharesCells bool
 	hasRet            bool
+	inPanicPath       int
+	stepCount         int
 }
 
 type unsupportedErr string
@@ -954,6 +956,7 @@ func (e *Exec) execBlock(b *ssa.BasicBlock, st State) {
 		case *ssa.Call:
 			r := e.call(x, x.Common(), &st)
 			e.env[x] = r
+			e.stepInvs(&st, x.Pos())
 		case *ssa.Extract:
 			t := e.val(x.Tuple)
 			if len(t.Tuple) <= x.Index {
@@ -1029,6 +1032,9 @@ func (e *Exec) execBlock(b *ssa.BasicBlock, st State) {
 		case *ssa.Defer:
 			e.execDefer(x, &st)
 		case *ssa.RunDefers:
+			if _, ok := c.compSort["$panic"]; ok && e.inPanicPath == 0 {
+				st.heap = c.hset(st.heap, "$panic", "false")
+			}
 			e.runDefers(&st)
 		case *ssa.Go:
 			e.execGo(x, &st)
@@ -1834,4 +1840,33 @@ func (e *Exec) findStableNames() {
 			e.stableNames[v] = obj.Name()
 		}
 	}
+}
+
+// stepInvs: intermediate assertions that hold after every call (they split a long frame argument
+// into one small obligation per step). A clause whose names are not bound yet is skipped.
+func (e *Exec) stepInvs(st *State, pos token.Pos) {
+	c := e.c
+	for i, cl := range e.con.StepInvs {
+		g, ok := e.tryEvalBool(st, cl)
+		if !ok {
+			continue
+		}
+		e.stepCount++
+		c.oblige("stepinv", fmt.Sprintf("stepinv[%d]@step%d", i+1, e.stepCount), st.pc, g, "step invariant: "+cl.Src, e.pos(pos))
+		c.factUnder(st.pc, g)
+	}
+}
+
+func (e *Exec) tryEvalBool(st *State, cl Clause) (g string, ok bool) {
+	defer func() {
+		if r := recover(); r != nil {
+			if u, isU := r.(unsupportedErr); isU && strings.Contains(string(u), "unknown identifier") {
+				ok = false
+				return
+			}
+			panic(r)
+		}
+	}()
+	sc := e.scope(st.heap, e.c.entry)
+	return e.evalBool(sc, cl), true
 }
